@@ -15,6 +15,8 @@ struct FnCtx {
     key: String,
     loops: Vec<Value>,
     closures: Vec<Value>,
+    stmts: Vec<Value>,
+    stmt_occ: HashMap<String, usize>,
     loop_occ: HashMap<String, usize>,
     clos_occ: HashMap<String, usize>,
     has_ret: bool,
@@ -72,11 +74,11 @@ impl<'a> Marker<'a> {
         } else if let Some(p) = semi_pos {
             self.ins(p, format!("/*@F{}:SIG@*/", idx));
         }
-        self.stack.push(FnCtx { idx, key, loops: vec![], closures: vec![], loop_occ: HashMap::new(), clos_occ: HashMap::new(), has_ret, params });
+        self.stack.push(FnCtx { idx, key, loops: vec![], closures: vec![], stmts: vec![], stmt_occ: HashMap::new(), loop_occ: HashMap::new(), clos_occ: HashMap::new(), has_ret, params });
     }
     fn end_fn(&mut self) {
         let f = self.stack.pop().unwrap();
-        self.done.push(json!({"idx": f.idx, "key": f.key, "loops": f.loops, "closures": f.closures, "has_ret": f.has_ret, "params": f.params}));
+        self.done.push(json!({"idx": f.idx, "key": f.key, "loops": f.loops, "closures": f.closures, "stmts": f.stmts, "has_ret": f.has_ret, "params": f.params}));
     }
 }
 fn norm_ws(s: &str) -> String {
@@ -166,6 +168,28 @@ impl<'a, 'ast> Visit<'ast> for Marker<'a> {
         visit::visit_expr_method_call(self, m);
     }
     fn visit_local(&mut self, l: &'ast syn::Local) {
+        // statement anchor: after `let <name> = ...;`
+        let lname = match &l.pat {
+            syn::Pat::Ident(pi) => Some(pi.ident.to_string()),
+            syn::Pat::Type(pt) => match &*pt.pat {
+                syn::Pat::Ident(pi) => Some(pi.ident.to_string()),
+                _ => None,
+            },
+            syn::Pat::Tuple(t) => {
+                let names: Vec<String> = t.elems.iter().filter_map(|e| if let syn::Pat::Ident(pi) = e { Some(pi.ident.to_string()) } else { None }).collect();
+                if names.is_empty() { None } else { Some(names.join(",")) }
+            }
+            _ => None,
+        };
+        if let (Some(name), Some(f)) = (lname, self.stack.last_mut()) {
+            let k = f.stmts.len();
+            let fidx = f.idx;
+            let occ = f.stmt_occ.entry(name.clone()).or_insert(0);
+            *occ += 1;
+            f.stmts.push(json!({"idx": k, "key": format!("let:{}#{}", name, occ)}));
+            let end = nr(l).1;
+            self.ins(end, format!("/*@F{}:S{}:AFTER@*/", fidx, k));
+        }
         if let Some(init) = &l.init {
             if let Expr::Closure(c) = &*init.expr {
                 let name = match &l.pat {
